@@ -17,9 +17,9 @@ import (
 // C04: parsing is total and exclusive; truncated and ill-encoded documents are rejected.
 
 type C04Case struct {
-	Mode  string `json:"mode"`            // "bytes" or "doc"
+	Mode  string   `json:"mode"`            // "bytes" or "doc"
 	Bytes RawBytes `json:"bytes,omitempty"` // mode bytes: arbitrary input (Latin-1 mapped in JSON)
-	Root  *V     `json:"root,omitempty"`  // mode doc: all prefixes and all UTF-8 injections of Root's text
+	Root  *V       `json:"root,omitempty"`  // mode doc: all prefixes and all UTF-8 injections of Root's text
 	// mode deep: Unit repeated Depth times, optionally followed by the matching closers
 	Unit   string `json:"unit,omitempty"`
 	Depth  int    `json:"depth,omitempty"`
